@@ -21,8 +21,9 @@ Regexes: `IRRELEVANT_QUERY(_AMP)_RE` are regenerated as `Py.Re` terms and matche
 proved matcher `Re.pyMatch`; `IRRELEVANT_SUBDOMAIN(_AMP)_RE`, `AMP_SUFFIXES_RE`, `MISTAKES_RE`
 use look-around and are used through `sub`: hand-written leftmost scanners, each tied to the
 regenerated pattern string by an obligation (`…_pattern`, `Props/C05.lean`) and to the real
-compiled regex by a regenerated probe table.  `\d` is modelled on ASCII digits only (the
-hostname alphabet of the generators has no other decimal digit, DESIGN §4).
+compiled regex by a regenerated probe table.  `\d` of these (str) patterns is every Unicode
+decimal digit: the class is regenerated from the compiled regex (`Gen.Normalize.reDigitRanges`,
+`isReDigit`): `www٣.a.com` loses its first label like `www3.a.com`.
 -/
 namespace Ural.Normalize
 open Ural.Py Ural.UrlParts Ural.Quote Ural.Canonicalize
@@ -257,10 +258,15 @@ def normFragment (sf : StripFragment) (f : Str) : Str :=
 
 /-! ## the hostname -/
 
-/-- `\d` (ASCII) at the head of `r`: what follows it -/
+/-- `\d` in a str pattern compiled with the flags of `IRRELEVANT_SUBDOMAIN_RE`: a Unicode decimal
+digit (the class is regenerated from the compiled regex) -/
+def isReDigit (c : Char) : Bool :=
+  Gen.Normalize.reDigitRanges.any fun r => decide (r.1 ≤ c.toNat) && decide (c.toNat ≤ r.2)
+
+/-- `\d` at the head of `r`: what follows it -/
 def afterDigit : Str → Option Str
   | [] => none
-  | d :: e => if isAsciiDigit d then some e else none
+  | d :: e => if isReDigit d then some e else none
 
 /-- `(?:www\d?|mobile|amp|m)\.` (re.I; `amp` only in the AMP variant) at the head of `s`:
 what follows the match.  `www\d?\.`: with a digit after `www` the dot must follow the digit,
